@@ -142,7 +142,10 @@ class ElectionProfile:
             else:
                 profile.nBallots += multiplier
                 ranking = [rank[0] for rank in ranking] # possibly empty
-                self.ranking = array.array('B' if profile.nCand < 256 else 'H' if profile.nCand < 65536 else 'L', ranking)
+                if profile.nCand < 2**32:
+                    self.ranking = array.array('B' if profile.nCand < 256 else 'H' if profile.nCand < 65536 else 'L', ranking)
+                else:
+                    self.ranking = ranking  # ids beyond what an array typecode is sure to hold: keep the list
 
     def __validate(self):
         "check profile for internal consistency"
